@@ -394,7 +394,20 @@ class ObjModels:
 			the order of two keys is decided lazily by the solver"""
 			v = self.rd(ip, st, a[0])
 			out = []
-			lt = "lt16" if str(a[1]).endswith("canonical_cmp") else "lts"
+			cmp_name = str(a[1].ty if isinstance(a[1], Agg) else a[1])
+			if cmp_name.endswith("canonical_cmp"):
+				lt = "lt16"
+			else:
+				# a closure: which order it implements is read off its body (Object::sort's closure compares
+				# the stripped entries = `str` order; a closure that calls canonical_cmp is the UTF-16 order)
+				c = ip.fn_value_call(a[1], [None, None])
+				body = " ".join(stmt for blk_ in (c.fn.blocks.values() if c is not None else []) for stmt in blk_)
+				if "canonical_cmp" in body:
+					lt = "lt16"
+				elif re.search(r"as (Ord|PartialOrd)>::(cmp|partial_cmp)", body):
+					lt = "lts"
+				else:
+					raise MirError("sort_by with a comparator that is not recognised: %r" % (a[1],))
 
 			def ins(s, done, rest):
 				# insertion sort with symbolic comparisons
@@ -2852,7 +2865,7 @@ def nested_text(v, ctr=None):
 
 def canon_shapes(level):
 	"""level 1: objects of <= 2 members with values from {t, {}, {k:t}, {k:t,k:f}, [{k:t,k:f}]} and arrays of
-	<= 2 items from {t, {k:t,k:f}}; level 2 adds: objects of <= 2 members with at least one value among
+	<= 2 items from {t, {k:t,k:f}, [{k:t,k:f}]} (an array directly inside an array); level 2 adds: objects of <= 2 members with at least one value among
 	{k:{k:t,k:f}} (three levels) and {k:t,k:f,k:t}, and objects of 3 members with values from {t, {k:t}, {k:t,k:f}}"""
 	O2 = ("obj", ("t", "f"))
 	D = ["t", ("obj", ()), ("obj", ("t",)), O2, ("arr", (O2,))]
@@ -2864,7 +2877,7 @@ def canon_shapes(level):
 		out += [("obj", x) for k in range(1, 3) for x in itertools.product(D2, repeat=k) if any(c in D2[5:] for c in x)]
 		out += [("obj", x) for x in itertools.product(["t", ("obj", ("t",)), O2], repeat=3)]
 	for k in range(3):
-		out += [("arr", x) for x in itertools.product(["t", O2], repeat=k)]
+		out += [("arr", x) for x in itertools.product(["t", O2, ("arr", (O2,))], repeat=k)]
 	return out
 
 
@@ -2925,7 +2938,7 @@ def replay_canon(native, shape, keyvals):
 			why = "stale index"
 	except Exception as e:  # noqa: BLE001
 		why = "unreadable output (%s)" % e
-	return dict(value=src, got=got, want="a canonical form of the input", why=why, reproduced=why is not None)
+	return dict(value=src, got=got, want="a canonical form of the input", why=why, reproduced=why is not None, shape=shape, keys=list(keyvals))
 
 
 def frag_shapes(level):
@@ -3206,7 +3219,18 @@ def main():
 					nval += 1
 					if r["reproduced"]:
 						bad.append(r)
+						if not ex.violations and len(bad) <= 3:
+							# the REAL code breaks the property on a concrete validation input although the
+							# interpreter + models pass it (a blind spot of a model, e.g. the index model files
+							# buckets by position only): a reproduced violation all the same — reported as such,
+							# and marked as found by the validation replay, not by the solver
+							bad[-1]["from_validation"] = True
 			out["translator_validation"] = dict(values=nval, disagreements=bad[:3])
+			if bad and not ex.violations:
+				for r in bad[:3]:
+					ex.violations.append(dict(label="C10:real-canonicalize-breaks-the-property-on-a-validation-input", detail="%s (found by the native validation replay; the interpreter passes this value)" % r["why"],
+					                          history=[["canonicalize_nested", [r["value"]]]], keys=r["keys"], key_decisions=[], shape=r["shape"], native=r))
+				bad = []
 			for v in ex.violations:
 				kv = list(v.get("keys") or [])
 				while len(kv) < 16:
@@ -3357,6 +3381,7 @@ def main():
 				kv.append(0x41 + len(kv))
 			r = replay_history(native, hist, kv)
 			if r["reproduced"]:
+				r["history"], r["keys"] = hist, list(kv)
 				bad.append(r)
 		out["translator_validation"] = dict(histories=len(ex.samples), disagreements=bad[:3])
 		out["sample_histories"] = [" ".join(concrete_ops(h, kv + [0x41 + i for i in range(8)])) for h, kv in ex.samples[:5]]
@@ -3366,7 +3391,12 @@ def main():
 				kv.append(0x41 + len(kv))
 			v["native"] = replay_history(native, v["history"], kv)
 		if bad and not ex.violations:
-			raise MirError("translator validation failed: the real Object deviates from the list model on a history the interpreter passes: %s" % json.dumps(bad[0]))
+			# the REAL Object deviates from the list model on a concrete sampled history that the interpreter +
+			# models pass (a blind spot of a model): a reproduced violation all the same, marked as found by
+			# the validation replay rather than by the solver
+			for r in bad[:3]:
+				ex.violations.append(dict(label="C06:real-object-deviates-from-the-list-model-on-a-validation-history", detail="first deviation at operation %s (found by the native validation replay; the interpreter passes this history)" % r.get("first_deviation"),
+				                          history=r["history"], keys=r["keys"], key_decisions=[], native=r))
 		out.update(depth=a.depth, histories=ex.paths, operations_run=ex.ops_run, mir_steps=ex.ip.stats["steps"], solver_queries=ex.keys.queries,
 		           solver_time_s=round(ex.keys.solver_time, 2), key_variables=len(ex.keys.vars), wall_s=round(time.time() - t0, 1), timed_out=ex.timed_out,
 		           violations=ex.violations)
